@@ -18,7 +18,15 @@ RULE = ("kinds: tree (random op tree, depth <= 4, over 1-2 random parent screens
         "filter_dataset_to_unique_treatments on a view), malformed (wrong-length or non-bool selection at a random node, combine / concat "
         "of views of two different parent objects incl. content-equal ones, empty concat), to_screen (tree, then to_screen()), plates "
         "(Screen.plates), split (subset_observed + subset_unobserved), unique_raw (select_unique_zipped_numpy_arrays on 1-3 small-int "
-        "columns). Non-trivial: parent with >= 2 rows (unique_raw: >= 2 rows); distinct by canonical description.")
+        "columns). Non-trivial: parent with >= 2 rows (unique_raw: >= 2 rows); distinct by canonical description.  Gap round: parents of "
+        "17 / 24 / 40 rows (numpy's sorts change algorithm above 16); the view predicate also reads unique_treatments, n_unique_treatments, "
+        "treatment_arity, control_treatment_name, the three mappings, sample / treatment_space_size, Plate.plate_id / plate_name against the "
+        "selected rows of the snapshot; kind dag: straight-line programs of 3-10 statements over view OBJECTS (a binding used in several "
+        "positions: v.combine(v), concat([v, v, w]), two subsets of one v), to_screen in the middle with further views of the materialised "
+        "screen (a new parent; combining its views with views of the original must be refused with ValueError), every view of the program "
+        "re-read against its set-algebra semantics AFTER the last statement, the last view compared with the model over the extended "
+        "screen list.  Outside the quantifier and not predicated: Screen.set_observed / Plate.merge on a parent while views exist "
+        "(subset_observed() hands the parent's mask array to the view, so such a mutation shows through) and selections that are not 1-d.")
 THEOREMS = {
     "C14_constructed_screens": "every screen the constructor returns satisfies the side conditions screen_wf / screen_valid used below",
     "C14_selected_rows": "np.where(selection) is strictly increasing and lists exactly the true positions",
@@ -431,6 +439,22 @@ def pred_view(ev, tree, v):
                ("unique_sample_ids", lambda: [int(x) for x in v.unique_sample_ids], sorted({int(sn["sample_ids"][i]) for i in idx})),
                ("unique_plate_ids", lambda: [int(x) for x in v.unique_plate_ids], sorted({int(sn["plate_ids"][i]) for i in idx})),
                ("n_plates", lambda: int(v.n_plates), len({int(sn["plate_ids"][i]) for i in idx}))]
+    par = ev.screens[k]
+    tid_set = sorted({int(x) for i in idx for x in _tid_rows(sn["treatment_ids"], n)[i]} - {-1})       # CONTROL_SENTINEL_VALUE = -1
+    derived += [("unique_treatments", lambda: [int(x) for x in v.unique_treatments], tid_set),
+                ("n_unique_treatments", lambda: int(v.n_unique_treatments), len(tid_set)),
+                ("treatment_arity", lambda: int(v.treatment_arity), int(np.asarray(sn["treatment_ids"]).reshape(n, -1).shape[1]) if n else int(par.treatment_arity)),
+                ("control_treatment_name", lambda: str(v.control_treatment_name), str(par.control_treatment_name)),
+                ("treatment_mapping", lambda: sl.canon_tmap(v.treatment_mapping), sl.canon_tmap(par.treatment_mapping)),
+                ("sample_mapping", lambda: sl.canon_nmap(v.sample_mapping), sl.canon_nmap(par.sample_mapping)),
+                ("plate_mapping", lambda: sl.canon_nmap(v.plate_mapping), sl.canon_nmap(par.plate_mapping)),
+                ("sample_space_size", lambda: int(v.sample_space_size), len(par.sample_mapping[0])),
+                ("treatment_space_size", lambda: int(v.treatment_space_size), len(par.treatment_mapping[0]))]
+    if hasattr(type(v), "plate_name") and idx:
+        derived.append(("plate_name", lambda: str(v.plate_name), str(sn["plate_names"][idx[0]])))
+    pidset = sorted({int(sn["plate_ids"][i]) for i in idx})
+    if hasattr(type(v), "plate_id") and len(pidset) == 1:
+        derived.append(("plate_id", lambda: int(v.plate_id), pidset[0]))
     for name, get, want in derived:
         try:
             got = get()
@@ -488,7 +512,7 @@ def _rand_mask(rng, n):
 
 def gen_screen(rng, n=None):
     ctrl = rng.choice(sl.CTRLS)
-    n = n if n is not None else rng.choice([0, 1, 2, 3, 4, 5, 6, 6, 8, 8, 10, 12])
+    n = n if n is not None else rng.choice([0, 1, 2, 3, 4, 5, 6, 6, 8, 8, 10, 12, 12, 17, 24, 40])
     names = rng.sample(sl.NAMES, rng.randint(1, 3)) + ([ctrl] if rng.random() < 0.5 else [])
     doses = rng.sample(sl.DOSES, rng.randint(1, 3))
     samples = rng.sample(sl.NAMES, rng.randint(1, 3))
@@ -594,11 +618,228 @@ def gen(rng, tier):
         yield dict(kind="plates", screens=[gen_screen(rng)], k=0)
     for _ in range(40 * N):
         yield dict(kind="split", screens=[gen_screen(rng)], k=0)
+    for _ in range(120 * N):
+        yield gen_dag(rng)
     for _ in range(80 * N):
         n = rng.choice([0, 1, 2, 3, 5, 8, 12, 20])
         ncol = rng.choice([1, 2, 3])
         lo, hi = rng.choice([(-1, 1), (-1, 2), (0, 3), (-1, 0)])
         yield dict(kind="unique_raw", cols=[[rng.randint(lo, hi) for _ in range(n)] for _ in range(ncol)])
+
+
+# --------------------------------------------------------------------------- programs with shared view objects (kind dag)
+
+
+class Dag:
+    """a straight-line program over view OBJECTS: every statement binds one value, later statements name earlier bindings by
+    index, so the same object can be used in several positions (v.combine(v), concat([v, v, w]), two subsets of one v) and is
+    re-read after everything that came later.  Statements: ["base", k, mask] | ["obs", k] | ["unobs", k] | ["plate", k, pid] |
+    ["subset", i, mask] | ["combine", i, j] | ["invert", i] | ["unique", i] | ["concat", [i, ...]] | ["to_screen", i]
+    (k = screen index, the materialised screens being appended to the screen list in program order; i, j = binding indices).
+    The reference semantics of a binding is its INLINED tree over the extended screen list."""
+
+    def __init__(self, screens):
+        self.descs = list(screens)
+        self.bind = []          # ("view", tree) | ("screen", k)
+
+    def tree(self, i):
+        kind, x = self.bind[i]
+        if kind != "view":
+            raise RefError("not-a-view")
+        return x
+
+    def add(self, st):
+        op = st[0]
+        if op == "base":
+            self.bind.append(("view", ["base", st[1], True, st[2]]))
+        elif op in ("obs", "unobs", "plate"):
+            self.bind.append(("view", list(st)))
+        elif op == "subset":
+            self.bind.append(("view", ["subset", self.tree(st[1]), True, st[2]]))
+        elif op == "combine":
+            self.bind.append(("view", ["combine", self.tree(st[1]), self.tree(st[2])]))
+        elif op in ("invert", "unique"):
+            self.bind.append(("view", [op, self.tree(st[1])]))
+        elif op == "concat":
+            self.bind.append(("view", ["concat", [self.tree(i) for i in st[1]]]))
+        elif op == "to_screen":
+            k, idx = ref_eval(self.tree(st[1]), DescAcc(self.descs))
+            d = self.descs[k]
+            self.descs.append(dict(d, rows=[d["rows"][j] for j in idx], obs_given=True, mask_given=True, tmap=None, smap=None))
+            self.bind.append(("screen", len(self.descs) - 1))
+        else:
+            raise ValueError(op)
+
+    def ref(self, i):
+        return ref_eval(self.tree(i), DescAcc(self.descs))
+
+
+def gen_dag(rng):
+    ns = rng.choice([1, 1, 2])
+    screens = [gen_screen(rng, n=rng.choice([2, 3, 4, 6, 8, 10, 17])) for _ in range(ns)]
+    dag, prog = Dag(screens), []
+    n_to = 0
+
+    def push(st):
+        dag.add(st)
+        prog.append(st)
+
+    def views():
+        out = []
+        for i, (kind, _) in enumerate(dag.bind):
+            if kind == "view":
+                try:
+                    out.append((i,) + tuple(dag.ref(i)))
+                except RefError:
+                    pass
+        return out
+
+    for _ in range(rng.randint(3, 9)):
+        vs = views()
+        c = rng.choice(["leaf", "subset", "subset", "combine", "combine", "invert", "concat", "unique", "to_screen"]) if vs else "leaf"
+        if c == "leaf":
+            k = rng.randrange(len(dag.descs))
+            acc = DescAcc(dag.descs)
+            n = acc.size(k)
+            lc = rng.choice(["base", "base", "obs", "unobs", "plate"])
+            st = ["base", k, _rand_mask(rng, n)]
+            if lc in ("obs", "unobs") and any(acc.observed(k, i) == (lc == "obs") for i in range(n)):
+                st = [lc, k]
+            elif lc == "plate" and acc.pn[k]:
+                st = ["plate", k, rng.randrange(len(acc.pn[k]))]
+            push(st)
+            continue
+        i, k, idx = rng.choice(vs)
+        same = [x for x in vs if x[1] == k]
+        if c == "subset":
+            push(["subset", i, _rand_mask(rng, len(idx))])
+        elif c == "combine":
+            push(["combine", i, rng.choice(same)[0] if rng.random() < 0.8 else i])
+        elif c in ("invert", "unique"):
+            push([c, i])
+        elif c == "concat":
+            push(["concat", [rng.choice(same)[0] for _ in range(rng.choice([1, 2, 3, 3]))]])
+        elif c == "to_screen" and n_to < 2:
+            n_to += 1
+            push(["to_screen", i])
+    vs = views()
+    parents = sorted({x[1] for x in vs})
+    if len(parents) > 1 and rng.random() < 0.6:        # views of two different parent objects (e.g. of a screen and of its materialisation)
+        a = rng.choice([x for x in vs if x[1] == parents[0]])[0]
+        b = rng.choice([x for x in vs if x[1] == parents[-1]])[0]
+        prog.append(rng.choice([["combine", a, b], ["combine", b, a], ["concat", [a, b]], ["concat", [a, a, b]]]))
+    elif not vs or dag.bind[-1][0] != "view":
+        k = rng.randrange(len(dag.descs))
+        push(["base", k, _rand_mask(rng, DescAcc(dag.descs).size(k))])
+    return dict(kind="dag", screens=screens, prog=prog)
+
+
+def run_dag(desc):
+    from batchie.data import ScreenSubset, filter_dataset_to_unique_treatments
+
+    screens = [sl.build(d) for d in desc["screens"]]
+    ev = Evaluator(screens)
+    dag, vals, pred, feats = Dag(desc["screens"]), [], None, set()
+    used = {}
+    last_refused = None
+    for n, st in enumerate(desc["prog"]):
+        op = st[0]
+        refs = [st[1]] if op in ("subset", "invert", "unique", "to_screen") else [st[1], st[2]] if op == "combine" else list(st[1]) if op == "concat" else []
+        for r in refs:
+            used[r] = used.get(r, 0) + 1
+        if len(set(refs)) < len(refs):
+            feats.add("same_object_twice")
+        expect_refused = None
+        try:
+            dag.add(st)
+            if op != "to_screen":
+                dag.ref(len(dag.bind) - 1)
+        except RefError as e:
+            expect_refused = str(e)
+            if len(dag.bind) <= n:
+                tr = ["combine", dag.tree(st[1]), dag.tree(st[2])] if op == "combine" else ["concat", [dag.tree(i) for i in st[1]]]
+                dag.bind.append(("view", tr))
+
+        def do():
+            if op == "base":
+                return ev.op("Screen.subset", [], lambda: ev.screens[st[1]].subset(_bvec(True, st[2])))
+            if op in ("obs", "unobs"):
+                s = ev.screens[st[1]]
+                return ev.op("subset_" + op, [], (s.subset_observed if op == "obs" else s.subset_unobserved))
+            if op == "plate":
+                return ev.op("get_plate", [], lambda: ev.screens[st[1]].get_plate(st[2]))
+            if op == "subset":
+                v = vals[st[1]]
+                return ev.op("ScreenSubset.subset", [v], lambda: v.subset(_bvec(True, st[2])))
+            if op == "combine":
+                a, b = vals[st[1]], vals[st[2]]
+                return ev.op("combine", [a, b], lambda: a.combine(b))
+            if op == "invert":
+                v = vals[st[1]]
+                return ev.op("invert", [v], lambda: v.invert())
+            if op == "unique":
+                v = vals[st[1]]
+                return ev.op("filter_unique(view)", [v], lambda: filter_dataset_to_unique_treatments(v))
+            if op == "concat":
+                vs = [vals[i] for i in st[1]]
+                return ev.op("concat", vs, lambda: ScreenSubset.concat(vs), fresh=len(vs) != 1)
+            if op == "to_screen":
+                v = vals[st[1]]
+                return ev.op("to_screen", [v], v.to_screen, fresh=False)
+            raise ValueError(op)
+
+        r = impl_call(do)
+        if expect_refused is not None:
+            feats.add("refused_" + expect_refused)
+            if not isinstance(r, ImplError):
+                pred = "statement %d %r must be refused (%s) but returned a view" % (n, st[:2], expect_refused)
+            elif r.cls != "ValueError":
+                pred = "statement %d: refusal (%s) surfaced as %r instead of ValueError" % (n, expect_refused, r)
+            last_refused = r
+            vals.append(None)
+            break
+        if isinstance(r, ImplError) or r is None:
+            pred = "statement %d %r of a valid program %s" % (n, st[:2], "returned None" if r is None else "raised %r" % (r,))
+            last_refused = r if isinstance(r, ImplError) else ImplError(NoneReturned(op))
+            vals.append(None)
+            break
+        if op == "to_screen":
+            feats.add("through_to_screen")
+            k, idx = dag.ref(st[1])
+            prow = _parent_rows(ev.snaps[k])
+            if sl.canon_rows(r) != [prow[i] for i in idx]:
+                pred = pred or "statement %d: materialised screen's rows differ from the parent's rows %r in order" % (n, idx)
+            for a in PARENT_ARRAYS:
+                if np.shares_memory(np.asarray(getattr(r, a)), np.asarray(getattr(ev.screens[k], a))):
+                    pred = pred or "statement %d: materialised screen shares %s with its parent" % (n, a)
+            ev.screens.append(r)
+            ev.snaps.append(_snap_parent(r))
+        vals.append(r)
+    if any(c > 1 for c in used.values()):
+        feats.add("binding_reused")
+    # every view of the program is re-read AFTER everything that was done later with it or next to it
+    if pred is None and ev.alias:
+        pred = ev.alias[0]
+    last_view = None
+    for i, (kind, x) in enumerate(dag.bind):
+        if kind == "view" and i < len(vals) and vals[i] is not None:
+            last_view = i
+            if pred is None:
+                p = pred_view(ev, x, vals[i])
+                if p:
+                    pred = "binding %d (%s), re-read at the end of the program %r: %s" % (i, desc["prog"][i][0], [s[:1] + [s[1]] if s[0] != "base" else s[:2] for s in desc["prog"]], p)
+    wscreens = [sl.wire_mk_args(d) for d in dag.descs]
+    f = _features(dict(kind="dag", screens=desc["screens"])) + sorted(feats) + sorted({"op_" + s[0] for s in desc["prog"]})
+    if last_refused is not None:
+        tr = dag.bind[len(vals) - 1]
+        if tr[0] == "view":
+            return dict(wire=[0, wscreens, wire_tree(tr[1])], impl=last_refused, pred=pred, features=f + ["refused"], cmp=_cmp_tree)
+        return dict(wire=None, impl=last_refused, pred=pred, features=f + ["refused"])
+    if last_view is None:
+        return dict(wire=None, impl=None, pred=pred, features=f + ["trivial"])
+    v = vals[last_view]
+    impl = dict(view=canon_view(v, ev.screens), where=[int(i) for i in np.where(v.selection_vector)[0]])
+    return dict(wire=[0, wscreens, wire_tree(dag.bind[last_view][1])], impl=impl, pred=pred, features=f, cmp=_cmp_tree)
 
 
 # --------------------------------------------------------------------------- run
@@ -711,6 +952,8 @@ def run(desc):
         f = ["unique_raw"] + (["trivial"] if len(keys) < 2 else []) + (["duplicate_keys"] if len(set(keys)) < len(keys) else [])
         return dict(wire=[3, cols], impl=out, pred=pred, features=f, cmp=cmp_result())
 
+    if k == "dag":
+        return run_dag(desc)
     screens = [sl.build(d) for d in desc["screens"]]
     ev = Evaluator(screens)
     wscreens = [sl.wire_mk_args(d) for d in desc["screens"]]
@@ -862,6 +1105,10 @@ def _rewrites(t):
 
 
 def shrink(desc):
+    if desc["kind"] == "dag":
+        for n in range(len(desc["prog"]) - 1, 0, -1):
+            yield dict(desc, prog=desc["prog"][:n])
+        return
     if "tree" in desc:
         for t in _rewrites(desc["tree"]):
             yield dict(desc, tree=t)
